@@ -23,6 +23,24 @@ from elementpath.xpath_context import XPathSchemaContext
 from .functions import XPathFunction
 
 
+class BooleanKey:
+    """
+    Internal dictionary key for xs:boolean map keys: in Python True == 1 and
+    False == 0 (with equal hashes) but an xs:boolean is never the same key as
+    a numeric value.
+    """
+    __slots__ = ('value',)
+
+    def __init__(self, value: bool) -> None:
+        self.value = value
+
+    def __repr__(self) -> str:
+        return 'true()' if self.value else 'false()'
+
+
+BOOLEAN_KEYS = {True: BooleanKey(True), False: BooleanKey(False)}
+
+
 class MapKeysView(KeysView[Optional[ta.AtomicType]]):
     _mapping: MappingProxyType[Optional[ta.AtomicType], ta.ValueType]
 
@@ -33,12 +51,16 @@ class MapKeysView(KeysView[Optional[ta.AtomicType]]):
             return False
         elif isinstance(key, float) and math.isnan(key):
             return None in self._mapping
+        elif isinstance(key, bool):
+            return BOOLEAN_KEYS[key] in self._mapping
         return key in self._mapping
 
     def __iter__(self) -> Iterator[ta.AtomicType]:
         for k in self._mapping:
             if k is None:
                 yield float('nan')
+            elif isinstance(k, BooleanKey):
+                yield k.value
             else:
                 yield k
 
@@ -56,6 +78,8 @@ class MapsItemsView(ItemsView[Optional[ta.AtomicType], ta.ValueType]):
         try:
             if isinstance(key, float) and math.isnan(key):
                 v = self._mapping[None]
+            elif isinstance(key, bool):
+                v = self._mapping[BOOLEAN_KEYS[key]]
             else:
                 v = self._mapping[key]
         except KeyError:
@@ -67,6 +91,8 @@ class MapsItemsView(ItemsView[Optional[ta.AtomicType], ta.ValueType]):
         for k in self._mapping:
             if k is None:
                 yield float('nan'), self._mapping[k]
+            elif isinstance(k, BooleanKey):
+                yield k.value, self._mapping[k]
             else:
                 yield k, self._mapping[k]
 
@@ -103,7 +129,10 @@ class XPathMap(XPathFunction):
                         raise self.error('XQDY0137')
                     self._nan_key, _map[None] = k, v
                     continue
-                elif k in _map:
+                elif isinstance(k, bool):
+                    k = BOOLEAN_KEYS[k]
+
+                if k in _map:
                     raise self.error('XQDY0137')
 
                 if isinstance(v, list):
@@ -188,7 +217,10 @@ class XPathMap(XPathFunction):
                     raise self.error('XQDY0137')
                 nan_key, _map[None] = k, value.evaluate(context)
                 continue
-            elif k in _map:
+            elif isinstance(k, bool):
+                k = BOOLEAN_KEYS[k]
+
+            if k in _map:
                 raise self.error('XQDY0137')
 
             v = value.evaluate(context)
@@ -219,6 +251,8 @@ class XPathMap(XPathFunction):
         try:
             if isinstance(key, float) and math.isnan(key):
                 return _map[None]
+            elif isinstance(key, bool):
+                return _map[BOOLEAN_KEYS[key]]
             else:
                 return _map[key]
         except KeyError:
